@@ -98,5 +98,36 @@ theorem swap_whitelist_cap_monitor {env : Env} {s s' : State} {m : MsgSwap} {r :
         simp only [hstd, if_false] at hle
         omega
 
+open Spec in
+/-- `whitelist` for additions: the counter-asset is not the standard coin and has a positive per-swap maximum -/
+theorem add_whitelist_monitor {env : Env} {s s' : State} {m : MsgAdd} {r : Resp} (h : add env s m = .ok (s', r)) :
+    c09_whitelist { env := env, pre := s, op := .add m, ok := true, resp := r, post := s' } = true := by
+  obtain ⟨h1, h2, _⟩ := add_caps h
+  simp only [c09_whitelist, Bool.not_true, Bool.false_or, Bool.and_eq_true, bne_iff_ne, ne_eq, decide_eq_true_eq]
+  exact ⟨h1, h2⟩
+
+open Spec in
+/-- `whitelist` for the onboarding auto-swap (the keeper's trade function called directly) -/
+theorem autoSwap_whitelist_monitor {env : Env} {s s' : State} {rcpt : Addr} {dIn : Denom} {maxIn out : Nat} {r : Resp}
+    (h : step env s (.autoSwap rcpt dIn maxIn out) = .ok (s', r)) :
+    c09_whitelist { env := env, pre := s, op := .autoSwap rcpt dIn maxIn out, ok := true, resp := r, post := s' } = true := by
+  simp only [step] at h
+  obtain ⟨⟨sold, bought, esc⟩, ht, h⟩ := bind_ok h
+  obtain ⟨q, hpf, _, _, _, _, hp, _, hmax⟩ := trade_buy_ok ht
+  obtain ⟨hne, _, _, _, _⟩ := poolFor_ok hpf
+  obtain ⟨_, _, _, hs⟩ := outputPrice_ok hp
+  obtain ⟨mx, hl, hle⟩ := checkMaxSwap_ok hmax
+  have hne' : dIn ≠ s.std := fun e => hne e.symm
+  obtain ⟨q1, q2⟩ := quoteLeg_fst s.std dIn s.std sold out true (Or.inr rfl) hne'
+  rw [q1] at hl; rw [q2] at hle
+  have hc : counterOf s.std dIn s.std = dIn := by
+    unfold counterOf; simp [hne']
+  rw [hc] at hl
+  simp only [hne', if_false] at hle
+  have h1 : 1 ≤ sold := by rw [hs]; exact Nat.le_add_left 1 _
+  simp only [c09_whitelist, Bool.not_true, Bool.false_or, Bool.and_eq_true, bne_iff_ne, ne_eq, decide_eq_true_eq,
+    Params.maxSwapOf, hl, Option.getD_some]
+  exact ⟨hne', by omega⟩
+
 end Coinswap
 end CV
